@@ -57,6 +57,9 @@ def Mon.next (m : Mon) (k : Kind) (e : Ev) : Option Mon :=
     if mutationOK m (m.accepted.contains r) res then
       some (if res = .accepted then { m' with names := r :: m'.names } else m')
     else none
+  | .whereBad r, .mut res =>
+    -- a constraint that does not compile is dropped: accepted / rejected like any other, no effect
+    if mutationOK m (m.accepted.contains r) res then some m' else none
   | .urlFor r, .url u =>
     (match u with
      | .ok => if m.names.contains r && m.servingBegun then some m' else none
